@@ -90,7 +90,7 @@ Definition rstep (r : rbv) (o : op) : (rbv * outv) + err :=
   | OFlip pos => let r1 := r_grow r pos in inl (r_upd r1 pos (negb (rbit r1 pos)), VNone)
   | OFlipAll | ONot => inl (r_map negb r, VNone)
   | OResize c i => inl (r_resize r c i, VNone)
-  | OAssign o => inl (of_list o, VNone)
+  | OAssign o | OAssignBs o | OCtorBs o => inl (of_list o, VNone)
   | OEq o => inl (r, VBool (r_eq r o))
   | OAndA o | OAnd o => inl (r_and r o, VNone)
   | OOrA o | OOr o => inl (r_or r o, VNone)
